@@ -145,12 +145,17 @@ class Evaluator:
         self.world = world
         self.cache = {}
         self.unmodelled = {}
+        self.in_progress = set()
 
     # -- public ----------------------------------------------------------
     def paths(self, fn):
         r = self.cache.get(fn.key)
         if r is None:
-            r = _Run(self, fn).run()
+            self.in_progress.add(fn.key)
+            try:
+                r = _Run(self, fn).run()
+            finally:
+                self.in_progress.discard(fn.key)
             self.cache[fn.key] = r
         if isinstance(r, Exception):
             raise r
@@ -300,6 +305,9 @@ class _Run:
         if "promoted" in c and "promoted_agg" in c and not c.get("promoted_of"):
             a = c["promoted_agg"]
             return sym.agg(a["adt"], a["variant"], a["fields"], [self.konst(x) for x in a["vals"]])
+        if "promoted" in c and c.get("promoted_ints") and not c.get("promoted_of") and "promoted_agg" not in c:
+            # a promoted value built by a constructor call on integer literals (e.g. a..=b)
+            return mk("constints", (ty, tuple(c["promoted_ints"])))
         if "promoted" in c and len(c.get("promoted_of", [])) == 1 and ty.startswith("&"):
             # `&NAMED_CONST` promoted to a static: the reference to that constant
             return mk("constdef", (c["promoted_of"][0], ty[1:].lstrip("'static ").strip()))
@@ -795,7 +803,37 @@ class _Run:
         # ---- workspace function: opaque here, expanded on demand ----
         r = sym.call(name, args, site, occ)
         self.havoc(st, t, raw, r)
+        self.refine_mut_outputs(st, t, raw, args, target_fn)
         return r
+
+    def refine_mut_outputs(self, st, t, raw, args, target_fn):
+        """when the callee has exactly one success path, a `&mut` argument's pointee after the call
+        is that path's final pointee value with the parameters substituted"""
+        if target_fn.key in self.ev.in_progress:
+            return
+        muts = []
+        for i, (o, rv) in enumerate(zip(t["args"], raw)):
+            ty = self.operand_ty(o)
+            if (tag(rv) == "ref" and payload(rv)[2]) or (ty.startswith("&mut ") and "dyn cosmwasm_std::Storage" not in ty):
+                muts.append(i)
+        if not muts:
+            return
+        try:
+            cps = self.ev.paths(target_fn)
+        except TooManyPaths:
+            return
+        oks = [p for p in cps if p.kind() in ("ok", "value", "dep")]
+        if len(oks) != 1:
+            return
+        m = {}
+        for i, a in enumerate(args):
+            if i < target_fn.arg_count:
+                m[sym.param(target_fn.key, i, target_fn.param_name(i))] = a
+        for i in muts:
+            pk = sym.param(target_fn.key, i, target_fn.param_name(i))
+            if pk in oks[0].ptr_out:
+                newv = sym.subst(oks[0].ptr_out[pk], m)
+                self.store_through(st, t["args"][i], raw[i], newv)
 
     def store_through(self, st, operand_json, rawv, new):
         if tag(rawv) == "ref":
